@@ -418,12 +418,17 @@ nfa, with no epsilon transition
 
         """
         from pyformlang.regular_expression import Regex
-        enfas = [self.copy() for _ in self._final_states]
-        final_states = list(self._final_states)
-        for i in range(len(self._final_states)):
-            for j in range(len(self._final_states)):
-                if i != j:
-                    enfas[j].remove_final_state(final_states[i])
+        enfas = []
+        for start in self._start_state:
+            for final in self._final_states:
+                enfa = self.copy()
+                for state in self._start_state:
+                    if state != start:
+                        enfa.remove_start_state(state)
+                for state in self._final_states:
+                    if state != final:
+                        enfa.remove_final_state(state)
+                enfas.append(enfa)
         regex_l = []
         for enfa in enfas:
             # pylint: disable=protected-access
